@@ -2,6 +2,7 @@
 #![allow(clippy::too_many_arguments, clippy::type_complexity)]
 
 mod builders;
+mod c12;
 mod campaign;
 mod convert;
 mod crash;
@@ -19,6 +20,8 @@ mod layout;
 mod lang;
 mod model;
 mod obs;
+mod probe;
+mod probes_main;
 mod profiles;
 mod run;
 mod templates;
@@ -77,6 +80,9 @@ fn worker(prop: &str, tier: &str, tag: &str) -> i32 {
     let _ = std::fs::remove_file(format!("{root}/failures/{prop}-crash-{tag}.json"));
     if matches!(prop, "C16" | "C17" | "C18") {
         return input_worker(prop, tier, tag, seed, thorough, &root);
+    }
+    if matches!(prop, "C12" | "C13" | "C15") {
+        return probes_main::worker(prop, tier, tag, seed, thorough, &root, threads());
     }
     let Some(plan) = profiles::plan(prop) else {
         eprintln!("gcverif: {prop} is not decided by this engine");
@@ -210,6 +216,9 @@ fn replay(path: &str) -> i32 {
     let prop = evidence::prop_from_file_text(&s);
     if let Ok(v) = serde_json::from_str::<serde_json::Value>(&s) {
         if let Some(kind) = v.get("kind").and_then(|k| k.as_str()) {
+            if kind.starts_with("probe") {
+                return probes_main::replay(&v, prop.as_deref().unwrap_or("?"), path);
+            }
             return replay_input(kind, &v, prop.as_deref().unwrap_or("?"), path);
         }
     }
